@@ -220,8 +220,13 @@ def check_single(ck: Checker, scn, sw: SingleWorld, model, tag="EOF", prop_eig="
     ck.m(np.abs(off).max(initial=0) <= 1e-7 * max(tot_scale * kap, 1e-300), prop_eig, "C01_ScoresOrthogonal",
          f"{tag}: scores are not mutually orthogonal (max off-diagonal {np.abs(off).max(initial=0):.3e})")
     GV = V.conj().T @ V
-    ck.m(np.abs(GV - np.eye(k)).max() <= 1e-7, prop_eig, "C01_ComponentsOrthonormal",
-         f"{tag}: components are not orthonormal (max deviation {np.abs(GV - np.eye(k)).max():.3e})")
+    if not exact:
+        # the randomised routines answer for the leading subspace only: vectors returned for singular values that
+        # are zero (more modes requested than the rank) are not specified by any statement
+        live = [i for i in range(k) if pred["sv2"][i] > 0]
+        GV = GV[np.ix_(live, live)] if live else np.eye(0)
+    ck.m(np.abs(GV - np.eye(GV.shape[0])).max(initial=0) <= 1e-7, prop_eig, "C01_ComponentsOrthonormal",
+         f"{tag}: components are not orthonormal (max deviation {np.abs(GV - np.eye(GV.shape[0])).max(initial=0):.3e})")
     # total variance and ratios (centring on)
     if cfg["center"] and hasattr(model, "explained_variance_ratio") and compare_values:
         ratio = np.asarray(model.explained_variance_ratio().values, float)
